@@ -39,6 +39,9 @@ type c07monitor struct {
 	dropped int
 	// complete answers (empty curtailing set) per (nonterminal, position)
 	complete map[[2]int]parsley.Node
+	recMemo  map[string]*c07rec
+	recNodes int
+	diffMemo map[string][2]bool
 	conflict []string
 }
 
@@ -61,11 +64,30 @@ type c07rec struct {
 	kids  []*c07rec
 }
 
+// recordTop records one returned result. Parse trees of memoized grammars are DAGs: shared sub-trees are recorded
+// once per call (memo) and the total number of records per case is budgeted.
+func (m *c07monitor) recordTop(n parsley.Node) *c07rec {
+	m.recMemo = map[string]*c07rec{}
+	r := m.record(n, 0)
+	m.recMemo = nil
+	return r
+}
+
 func (m *c07monitor) record(n parsley.Node, depth int) *c07rec {
 	if n == nil || depth > 100 {
 		return &c07rec{kind: "nil"}
 	}
-	r := &c07rec{token: n.Token(), pos: int(n.Pos()) - m.base, rpos: int(n.ReaderPos()) - m.base, ident: nodeIdent(n)}
+	id := nodeIdent(n)
+	if id != "" && m.recMemo != nil {
+		if r, ok := m.recMemo[id]; ok {
+			return r
+		}
+	}
+	m.recNodes++
+	r := &c07rec{token: n.Token(), pos: int(n.Pos()) - m.base, rpos: int(n.ReaderPos()) - m.base, ident: id}
+	if id != "" && m.recMemo != nil {
+		m.recMemo[id] = r
+	}
 	switch v := n.(type) {
 	case ast.EmptyNode:
 		r.kind = "empty"
@@ -107,6 +129,26 @@ func (m *c07monitor) diff(r *c07rec, n parsley.Node, inTouchedList bool, depth i
 	if depth > 100 {
 		return false, true
 	}
+	if depth == 0 {
+		m.diffMemo = map[string][2]bool{}
+	}
+	// shared sub-trees are compared once per top-level call
+	key := ""
+	if id := nodeIdent(n); id != "" {
+		key = fmt.Sprintf("%p/%s/%v", r, id, inTouchedList)
+		if v, ok := m.diffMemo[key]; ok {
+			return v[0], v[1]
+		}
+		defer func() {}()
+	}
+	c0, k0 := m.diff0(r, n, inTouchedList, depth)
+	if key != "" {
+		m.diffMemo[key] = [2]bool{c0, k0}
+	}
+	return c0, k0
+}
+
+func (m *c07monitor) diff0(r *c07rec, n parsley.Node, inTouchedList bool, depth int) (bool, bool) {
 	if n == nil {
 		return r.kind != "nil", false
 	}
@@ -265,11 +307,11 @@ func c07case(c GCase, a *run.Acc) {
 		if n == nil {
 			return
 		}
-		if len(m.snaps) >= 3000 {
+		if len(m.snaps) >= 3000 || m.recNodes > 300000 {
 			m.dropped++
 			return
 		}
-		m.snaps = append(m.snaps, c07snap{expr: label, pos: int(pos) - env.Base, node: n, full: m.str(n, false), rec: m.record(n, 0)})
+		m.snaps = append(m.snaps, c07snap{expr: label, pos: int(pos) - env.Base, node: n, full: m.str(n, false), rec: m.recordTop(n)})
 	}
 	// parents: which expressions are operands of a RightTrim
 	rtrimOperand := map[int]bool{}
